@@ -1,4 +1,6 @@
-import SaModel.Lemmas.ReadBasic
+import SaModel.Lemmas.C17Range
+import SaModel.Lemmas.C17TouchTyped
+import SaModel.Lemmas.C17UntouchedTyped
 /-
 C17 — structurally inconsistent array views give an error, not a panic or foreign data.
 Property theorems only.  Model: SaModel/Read/Reader.lean (readers after the `fix:` commits = `Fixes.all`);
@@ -12,7 +14,7 @@ all statements are over ARBITRARY `Arr` (no well-formedness hypothesis).
 * negations for the pinned readers with concrete witnesses (`decide`).
 -/
 namespace SaModel.Props.C17
-open SaModel SaModel.Read
+open SaModel SaModel.Read SaModel.Spec
 
 /-! ### construction never panics -/
 
@@ -438,11 +440,6 @@ theorem readRecord_no_panic (t : Target) (fm : FieldMeta) (col : Arr) (idx : Nat
 /-- a byte string is a sub-range of a buffer -/
 def SubRange (b buf : Bytes) : Prop := ∃ s n, s + n ≤ buf.length ∧ b = (buf.drop s).take n
 
-theorem ok_bind_inv {α β} {x : R α} {f : α → R β} {b : β} (h : (x >>= f) = .ok b) : ∃ a, x = .ok a ∧ f a = .ok b := by
-  cases x with
-  | ok a => exact ⟨a, rfl, h⟩
-  | error e => cases h
-
 /-- `BytesView::get` (Utf8 / LargeUtf8 / Binary / LargeBinary): the element is a sub-range of `data` -/
 theorem bytes_in_range {v : Option Bits} {offs : List Int} {data : Bytes} {idx : Nat} {b : Bytes}
     (h : bytesGet Fixes.all v offs data idx = .ok (some b)) : SubRange b data ∧ idx + 1 < offs.length := by
@@ -500,23 +497,6 @@ theorem fsb_in_range {n len : Nat} {v : Option Bits} {data : Bytes} {idx : Nat} 
         exact ⟨⟨idx * n, n, by rw [Nat.add_mul] at hc; omega, rfl⟩, by omega⟩
       · cases h
 
-theorem getRequired_ok {α} {x : R (Option α)} {a : α} (h : getRequired x = .ok a) : x = .ok (some a) := by
-  unfold getRequired at h
-  obtain ⟨o, hx, h⟩ := ok_bind_inv h
-  cases o
-  · cases h
-  · cases h; exact hx
-
-theorem asStr_ok {x : R (Option Bytes)} {b : Bytes} (h : asStr x = .ok (some b)) : x = .ok (some b) ∧ validUtf8 b = true := by
-  unfold asStr at h
-  obtain ⟨o, hx, h⟩ := ok_bind_inv h
-  cases o
-  · cases h
-  · simp only at h
-    split at h
-    · rename_i hv; cases h; exact ⟨hx, hv⟩
-    · cases h
-
 /-- `DictionaryDeserializer::get_str`: the string is a sub-range of the values' data buffer (and valid UTF-8) -/
 theorem dict_in_range {kty : PrimTy} {kv : Option Bits} {kvals : List Int} {vty : BytesTy} {vv : Option Bits}
     {voffs : List Int} {vdata : Bytes} {idx : Nat} {b : Bytes}
@@ -538,127 +518,10 @@ theorem dict_in_range {kty : PrimTy} {kv : Option Bits} {kvals : List Int} {vty 
         exact (List.getElem?_eq_some_iff.mp hx).1
     exact ⟨(bytes_in_range h'.1).1, h'.2, hidx⟩
 
-theorem optIsSome_ok {α} {x : R (Option α)} {b : Bool} (h : optIsSome x = .ok b) : ∃ o, x = .ok o := by
-  unfold optIsSome at h
-  obtain ⟨o, hx, _⟩ := ok_bind_inv h
-  exact ⟨o, hx⟩
-
-theorem primGet_ok_lt {fx : Fixes} {v : Option Bits} {vals : List Int} {idx : Nat} {o : Option Int}
-    (h : primGet fx v vals idx = .ok o) : idx < vals.length := by
-  unfold primGet at h
-  split at h
-  · cases h
-  · rename_i x hx
-    exact (List.getElem?_eq_some_iff.mp hx).1
-
-theorem boolGet_ok_lt {fx : Fixes} {len : Nat} {v : Option Bits} {vals : Bits} {idx : Nat} {o : Option Bool}
-    (h : boolGet fx len v vals idx = .ok o) : idx < len := by
-  unfold boolGet at h
-  split at h
-  · cases h
-  · omega
-
-theorem bytesGet_ok_lt {v : Option Bits} {offs : List Int} {data : Bytes} {idx : Nat} {o : Option Bytes}
-    (h : bytesGet Fixes.all v offs data idx = .ok o) : idx < offs.length - 1 := by
-  unfold bytesGet at h
-  simp only [Fixes.all, if_true] at h
-  split at h
-  · cases h
-  · omega
-
-theorem viewGet_ok_lt {fx : Fixes} {v : Option Bits} {views : List Nat} {buffers : List Bytes} {idx : Nat} {o : Option Bytes}
-    (h : viewGet fx v views buffers idx = .ok o) : idx < views.length := by
-  unfold viewGet at h
-  split at h
-  · cases h
-  · rename_i x hx
-    exact (List.getElem?_eq_some_iff.mp hx).1
-
-theorem asStr_ok' {x : R (Option Bytes)} {o : Option Bytes} (h : asStr x = .ok o) : ∃ o', x = .ok o' := by
-  unfold asStr at h
-  obtain ⟨o', hx, _⟩ := ok_bind_inv h
-  exact ⟨o', hx⟩
-
-theorem fsbColGet_ok_lt {n : Int} {v : Option Bits} {data : Bytes} {idx : Nat} {o : Option Bytes}
-    (h : fsbColGet Fixes.all n v data idx = .ok o) : idx < vlen (.fixedSizeBinary n v data) := by
-  unfold fsbColGet at h
-  obtain ⟨r, hn, h⟩ := ok_bind_inv h
-  obtain ⟨n', len⟩ := r
-  simp only at h
-  have hidx : idx < len := by
-    unfold fsbGet at h
-    split at h
-    · cases h
-    · omega
-  unfold fsbNew at hn
-  simp only [Fixes.all, if_true] at hn
-  simp only [vlen]
-  split at hn
-  · cases hn
-  · split at hn
-    · split at hn
-      · cases hn; omega
-      · cases hn
-    · split at hn
-      · cases hn
-      · cases hn
-        rename_i h0 h1 _
-        have : ¬ n ≤ 0 := by omega
-        simp only [this, if_false]
-        exact hidx
-
 /-- every successful `is_some` (hence every `deserialize_any`, every `Option` layer, every element read of a
 list / map / struct / union, which all go through it) addresses a row below the array's length -/
-theorem isSome_ok_lt_len {a : Arr} {idx : Nat} {b : Bool} (h : isSome Fixes.all a idx = .ok b) : idx < vlen a := by
-  cases a with
-  | null len =>
-    simp only [isSome] at h
-    obtain ⟨_, hc, _⟩ := ok_bind_inv h
-    unfold nullCheck at hc
-    simp only [Fixes.all, Bool.true_and, decide_eq_true_eq] at hc
-    split at hc
-    · cases hc
-    · simp only [vlen]; omega
-  | boolean len v vals =>
-    simp only [isSome] at h
-    obtain ⟨o, ho⟩ := optIsSome_ok h
-    exact boolGet_ok_lt ho
-  | prim ty v vals => simp only [isSome] at h; obtain ⟨o, ho⟩ := optIsSome_ok h; exact primGet_ok_lt ho
-  | time ty u v vals => simp only [isSome] at h; obtain ⟨o, ho⟩ := optIsSome_ok h; exact primGet_ok_lt ho
-  | timestamp u tz v vals => simp only [isSome] at h; obtain ⟨o, ho⟩ := optIsSome_ok h; exact primGet_ok_lt ho
-  | decimal128 p s v vals => simp only [isSome] at h; obtain ⟨o, ho⟩ := optIsSome_ok h; exact primGet_ok_lt ho
-  | bytes ty v offs data =>
-    simp only [isSome] at h
-    obtain ⟨o, ho⟩ := optIsSome_ok h
-    unfold bytesColGet at ho
-    simp only [vlen]
-    split at ho
-    · obtain ⟨o', ho'⟩ := asStr_ok' ho; exact bytesGet_ok_lt ho'
-    · exact bytesGet_ok_lt ho
-  | bytesView ty v views buffers =>
-    simp only [isSome] at h
-    obtain ⟨o, ho⟩ := optIsSome_ok h
-    unfold viewColGet at ho
-    simp only [vlen]
-    split at ho
-    · obtain ⟨o', ho'⟩ := asStr_ok' ho; exact viewGet_ok_lt ho'
-    · exact viewGet_ok_lt ho
-  | fixedSizeBinary n v data =>
-    simp only [isSome] at h
-    obtain ⟨o, ho⟩ := optIsSome_ok h
-    exact fsbColGet_ok_lt ho
-  | struct len v fs => simp only [isSome] at h; simp only [vlen]; split at h <;> first | omega | cases h
-  | list l v offs fm el => simp only [isSome] at h; simp only [vlen]; split at h <;> first | omega | cases h
-  | fixedSizeList len v n fm el => simp only [isSome] at h; simp only [vlen]; split at h <;> first | omega | cases h
-  | map v offs mm ks vs => simp only [isSome] at h; simp only [vlen]; split at h <;> first | omega | cases h
-  | dictionary ks vs =>
-    simp only [isSome] at h
-    split at h
-    · obtain ⟨o, ho⟩ := optIsSome_ok h
-      simp only [vlen]
-      exact primGet_ok_lt ho
-    · cases h
-  | union types offs fs => simp only [isSome] at h; simp only [vlen]; split at h <;> first | omega | cases h
+theorem isSome_ok_lt_len {a : Arr} {idx : Nat} {b : Bool} (h : isSome Fixes.all a idx = .ok b) : idx < vlen a :=
+  isSome_ok_lt_vlen h
 
 /-- children are only ever read through `anyAt`: a successful child read is below the child's length -/
 theorem anyAt_ok_lt_len {a : Arr} {f : Nat → R DVal} {idx : Nat} {d : DVal}
@@ -673,6 +536,188 @@ sub-range of the buffer its view designates, and (structure of `readAnySome`) ev
 through `anyAt`, i.e. again below that child's length -/
 theorem read_in_range {a : Arr} {idx : Nat} {d : DVal} (h : readAny Fixes.all a idx = .ok d) : idx < vlen a :=
   anyAt_ok_lt_len h
+
+/-! ### every slot a successful read visits lies below the length of its array (`touchOK`)
+
+`Spec.touchOK t a i` (SaModel/Spec/TouchRange.lean) is the run-time predicate of the `corrupt` suite: rows below the
+declared length, list / map / fixed-size elements and union / dictionary references below the child's length, for
+exactly the slots a read of target `t` has to visit.  The theorems below say that a successful read of the reader
+model implies it — for EVERY target and EVERY array (no well-formedness), given only `unionIdsOK a`: the union
+nodes of `a` list their children under the type ids 0, 1, 2, … .  That is what `ArrayDeserializer::new` checks and
+the reads do not re-check (`EnumDeserializer` indexes its variants by type id, the Arrow reading looks the id up),
+see `new_ok_unionIdsOK` and the counterexample `touch_needs_consecutive_ids`. -/
+
+mutual
+theorem touchP_all : ∀ (t : Target), TouchP t
+  | .any => touchP_any
+  | .ignored => touchP_ignored
+  | .unit => touchP_unit
+  | .unitStruct => touchP_unitStruct
+  | .bool => touchP_bool
+  | .int ty => touchP_int ty
+  | .f32 => touchP_f32
+  | .f64 => touchP_f64
+  | .char => touchP_char
+  | .string => touchP_string
+  | .str => touchP_str
+  | .bytes => touchP_bytes
+  | .byteBuf => touchP_byteBuf
+  | .option t => touchP_option (touchP_all t)
+  | .newtype t => touchP_newtype (touchP_all t)
+  | .seq t => touchP_seq (touchP_all t)
+  | .tuple ts => touchP_tuple (touchP_targets ts)
+  | .tupleStruct ts => touchP_tupleStruct (touchP_targets ts)
+  | .map k v => touchP_map (touchP_all k) (touchP_all v)
+  | .struct tfs => touchP_struct (touchP_fields tfs)
+  | .enum _ vs => touchP_enum (touchP_variants vs)
+theorem touchP_targets : ∀ (ts : Targets), AllT TouchP ts
+  | .nil => by unfold AllT; trivial
+  | .cons t r => by unfold AllT; exact ⟨touchP_all t, touchP_targets r⟩
+theorem touchP_fields : ∀ (tfs : TFields), AllF TouchP tfs
+  | .nil => by unfold AllF; trivial
+  | .cons _ t r => by unfold AllF; exact ⟨touchP_all t, touchP_fields r⟩
+theorem touchP_variants : ∀ (vs : TVariants), AllV KTouch vs
+  | .nil => by unfold AllV; trivial
+  | .cons _ k r => by unfold AllV; exact ⟨ktouch_all k, touchP_variants r⟩
+theorem ktouch_all : ∀ (k : VKind), KTouch k
+  | .unit => ktouch_unit
+  | .newtype t => ktouch_newtype (touchP_all t)
+  | .tuple ts => ktouch_tuple (touchP_targets ts)
+  | .struct tfs => ktouch_struct (touchP_fields tfs)
+end
+
+/-- `read_in_range` for the TYPED reads: whatever the target and whatever the (arbitrary, possibly inconsistent)
+view, a successful read visited only slots below the length of the array they belong to — the row itself, every
+list / map / fixed-size-list element, every union child slot, every dictionary key — all the way down -/
+theorem readAs_touch_in_range {t : Target} {a : Arr} {i : Nat} {d : DVal} (hids : unionIdsOK a = true)
+    (h : readAs Fixes.all t a i = .ok d) : touchOK t a i = true :=
+  touchP_all t a i d hids h
+
+/-- the same for `deserialize_any` -/
+theorem readAny_touch_in_range {a : Arr} {i : Nat} {d : DVal} (hids : unionIdsOK a = true)
+    (h : readAny Fixes.all a i = .ok d) : touchOK .any a i = true :=
+  readAny_touch hids rfl h
+
+/-- in the form the readers are used: the reader tree was built (`ArrayDeserializer::new` succeeded) -/
+theorem readAs_touch_in_range_of_new {t : Target} {a : Arr} {i : Nat} {d : DVal} (hnew : new Fixes.all a = .ok ())
+    (h : readAs Fixes.all t a i = .ok d) : touchOK t a i = true :=
+  readAs_touch_in_range (new_ok_unionIdsOK a hnew) h
+
+/-- the record level, exactly what the `corrupt` suite evaluates: `touchOK r.ty (record fm col) r.idx` -/
+theorem readRecord_touch_in_range {t : Target} {fm : FieldMeta} {col : Arr} {idx : Nat} {d : DVal}
+    (hnew : new Fixes.all (record fm col) = .ok ()) (h : readRecord Fixes.all t fm col idx = some (.ok d)) :
+    touchOK t (record fm col) idx = true := by
+  unfold readRecord at h
+  split at h
+  · cases h
+  · simp only [Option.some.injEq] at h
+    exact readAs_touch_in_range_of_new hnew h
+
+/-- every successful typed read is below the length of the array (the typed form of `read_in_range`) -/
+theorem readAs_ok_lt_len {t : Target} {a : Arr} {i : Nat} {d : DVal} (hids : unionIdsOK a = true)
+    (h : readAs Fixes.all t a i = .ok d) : i < Spec.lenOf a :=
+  touchOK_lt (readAs_touch_in_range hids h)
+
+/-- non-vacuity: a list of structs with a dictionary and a union column, read into `Vec<S>` with an `Option` field,
+a borrowed string and an enum; the read succeeds, the hypotheses hold -/
+example :
+    let a : Arr := .list false none [0, 1, 2] ⟨"element", false, []⟩
+      (.struct 2 none
+        (.cons ⟨"x", true, []⟩ (.prim .int32 (some ⟨[1], 0⟩) [7, 8])
+        (.cons ⟨"s", false, []⟩ (.dictionary (.prim .int8 none [0, 0]) (.bytes .utf8 none [0, 1] [65]))
+        (.cons ⟨"u", false, []⟩ (.union [0, 1] (some [0, 0])
+          (.cons 0 ⟨"A", false, []⟩ (.null 1) (.cons 1 ⟨"B", false, []⟩ (.prim .int8 none [5]) .nil))) .nil))))
+    let t : Target := .seq (.struct (.cons "x" (.option (.int .i32)) (.cons "s" .str
+      (.cons "u" (.enum false (.cons "A" .unit (.cons "B" (.newtype (.int .i8)) .nil))) .nil))))
+    new Fixes.all a = .ok () ∧ (readAs Fixes.all t a 1).isOk = true ∧ unionIdsOK a = true ∧ touchOK t a 1 = true := by
+  decide
+
+/-- the predicate is not trivially true: an element range that leaves the child, a dictionary key beyond the values -/
+example : touchOK (.seq (.int .i32)) (.list false none [0, 3] ⟨"element", false, []⟩ (.prim .int32 none [1, 2])) 0 = false ∧
+    touchOK .str (.dictionary (.prim .int8 none [1]) (.bytes .utf8 none [0, 1] [65])) 0 = false ∧
+    touchOK .any (.fixedSizeList 2 none 2 ⟨"element", false, []⟩ (.null 3)) 1 = false := by decide
+
+/-- the hypothesis `unionIdsOK` cannot be dropped: on a union whose children are NOT listed under the ids 0, 1, …
+the reader model (child at position `type id`) and the Arrow reading (child whose id is `type id`) part ways; such
+a view never reaches the readers, `ArrayDeserializer::new` rejects it -/
+theorem touch_needs_consecutive_ids :
+    let a : Arr := .union [0] (some [0]) (.cons 5 ⟨"a", false, []⟩ (.null 1) (.cons 0 ⟨"b", false, []⟩ (.null 0) .nil))
+    (readAny Fixes.all a 0).isOk = true ∧ touchOK .any a 0 = false ∧ (new Fixes.all a).isErr = true := by decide
+
+/-! ### `untouched_ok`: what is not reachable from row `i` does not influence the read at `i`
+
+`reachEq a a' i` (SaModel/Lemmas/C17Untouched.lean) is a structural relation on the DATA of two views, independent
+of the reader model and of the target: same constructors and type tags; at row `i` the same answer to "below the
+declared length", the same validity bit, value, pair of offsets, view descriptor, type id and union offset; equal
+byte buffers; and, recursively, agreement of the children at the slots row `i` refers to (struct fields at `i`, list /
+map elements `offsets[i] … offsets[i+1]-1`, fixed-size elements `i*n … (i+1)*n-1`, the dictionary value under the
+key of row `i`, the union child at position `type id` at slot `offsets[i]`).  Everything else may differ. -/
+
+mutual
+theorem agreeP_all : ∀ (t : Target), AgreeP t
+  | .any => agreeP_any
+  | .ignored => agreeP_ignored
+  | .unit => agreeP_unit
+  | .unitStruct => agreeP_unitStruct
+  | .bool => agreeP_bool
+  | .int ty => agreeP_int ty
+  | .f32 => agreeP_f32
+  | .f64 => agreeP_f64
+  | .char => agreeP_char
+  | .string => agreeP_string
+  | .str => agreeP_str
+  | .bytes => agreeP_bytes
+  | .byteBuf => agreeP_byteBuf
+  | .option t => agreeP_option (agreeP_all t)
+  | .newtype t => agreeP_newtype (agreeP_all t)
+  | .seq t => agreeP_seq (agreeP_all t)
+  | .tuple ts => agreeP_tuple (agreeP_targets ts)
+  | .tupleStruct ts => agreeP_tupleStruct (agreeP_targets ts)
+  | .map k v => agreeP_map (agreeP_all k) (agreeP_all v)
+  | .struct tfs => agreeP_struct (agreeP_fields tfs)
+  | .enum _ vs => agreeP_enum (agreeP_variants vs)
+theorem agreeP_targets : ∀ (ts : Targets), AllT AgreeP ts
+  | .nil => by unfold AllT; trivial
+  | .cons t r => by unfold AllT; exact ⟨agreeP_all t, agreeP_targets r⟩
+theorem agreeP_fields : ∀ (tfs : TFields), AllF AgreeP tfs
+  | .nil => by unfold AllF; trivial
+  | .cons _ t r => by unfold AllF; exact ⟨agreeP_all t, agreeP_fields r⟩
+theorem agreeP_variants : ∀ (vs : TVariants), AllV KAgree vs
+  | .nil => by unfold AllV; trivial
+  | .cons _ k r => by unfold AllV; exact ⟨kagree_all k, agreeP_variants r⟩
+theorem kagree_all : ∀ (k : VKind), KAgree k
+  | .unit => kagree_unit
+  | .newtype t => kagree_newtype (agreeP_all t)
+  | .tuple ts => kagree_tuple (agreeP_targets ts)
+  | .struct tfs => kagree_struct (agreeP_fields tfs)
+end
+
+/-- `untouched_ok`: two views that agree on everything reachable from row `i` give the same result (value, error
+or — excluded by `readAs_no_panic` — panic) for every typed read at `i`; in particular a corruption that is not
+reachable from `i` leaves the read at `i` what it was on the uncorrupted view.
+PARTIAL with respect to DESIGN.md's "not reachable from index i": `reachEq` is coarser than the exact footprint in
+two places — (1) the byte buffers of Utf8 / Binary / view / FixedSizeBinary columns (and the `n` of the latter) have
+to be equal as a whole, so a corrupted data byte OUTSIDE the slice row `i` designates is not covered; (2) the
+relation does not depend on the target, it covers what ANY read at `i` can reach (e.g. struct fields beyond the
+arity of a tuple target, which that target never looks at, still have to agree at `i`).  Everything else (lengths,
+validity bits, values, offsets, keys, type ids, union offsets, children slots not referenced from `i`) is exact. -/
+theorem untouched_ok_partial {t : Target} {a a' : Arr} {i : Nat} (h : reachEq a a' i = true) :
+    readAs Fixes.all t a i = readAs Fixes.all t a' i :=
+  agreeP_all t a a' i h
+
+/-- the same for `deserialize_any` and `is_some` (same two coarsenings) -/
+theorem untouched_ok_any_partial {a a' : Arr} {i : Nat} (h : reachEq a a' i = true) :
+    readAny Fixes.all a i = readAny Fixes.all a' i ∧ isSome Fixes.all a i = isSome Fixes.all a' i :=
+  ⟨readAny_agree h, isSome_agree h⟩
+
+/-- non-vacuity: a list column whose LAST offset, a value and a validity bit outside row 0 are corrupted (the
+corrupted row 1 is an error) still reads row 0 as before; the relation holds and is not trivial -/
+example :
+    let a : Arr := .list false none [0, 2, 3] ⟨"element", false, []⟩ (.prim .int32 (some ⟨[7], 0⟩) [1, 2, 3])
+    let a' : Arr := .list false none [0, 2, 99] ⟨"element", false, []⟩ (.prim .int32 (some ⟨[3], 0⟩) [1, 2, 77])
+    reachEq a a' 0 = true ∧ reachEq a a' 1 = false ∧
+    readAs Fixes.all (.seq (.int .i32)) a' 0 = .ok (.seq (.cons (.int .i32 1) (.cons (.int .i32 2) .nil))) ∧
+    (readAs Fixes.all (.seq (.int .i32)) a' 1).isErr = true := by decide
 
 /-! ### the pinned readers do panic / do return foreign elements: concrete witnesses -/
 
